@@ -8,6 +8,7 @@ import decimalfp
 from decimalfp import ROUNDING
 
 from quantity import Quantity, Unit
+from quantity import sum as quantity_sum
 import quantity.predefined as pre  # noqa: F401
 from quantity.money import Money  # noqa: F401
 
@@ -85,7 +86,7 @@ def gen_case(draw):
     mode = draw(gen.modes)
     op = gen.pick(draw, (3, st.just("ctor")), (3, st.just("arith")), (2, st.just("addsub")),
                   (2, st.just("convert")), (3, st.just("prod")), (1, st.just("round")),
-                  (1, st.just("str_other")))
+                  (1, st.just("str_other")), (2, st.just("conv_money")))
     c = {"k": op, "dflt": mode}
     if op == "ctor":
         u = _udesc(draw)
@@ -160,6 +161,19 @@ def gen_case(draw):
         u = _udesc(draw)
         c.update(u=u, amt=gen.encode_as(draw(st.integers(-10 ** 6, 10 ** 6)) * cat.quantum(u), "frac"),
                  n=draw(st.integers(-3, 6)))
+    elif op == "conv_money":
+        # mixed-currency arithmetic / conversion through a registered converter: rounded once
+        c1, c2 = draw(st.permutations(cat.CUR_SAMPLE))[:2]
+        rate = Fraction(draw(st.integers(1, 10 ** 6)), 10 ** draw(st.integers(0, 4)))     # 1e-4 .. 1e6, <= 4 digits
+        q1, q2 = cat.quantum(["cur", c1]), cat.quantum(["cur", c2])
+        a2 = draw(st.integers(-10 ** 5, 10 ** 5)) * q2
+        a1 = draw(st.integers(-10 ** 5, 10 ** 5)) * q1
+        if draw(st.booleans()) and a2 != 0:
+            # aim a1 + a2*rate at a tie of c1's grid
+            tgt = _grid_amount(draw, q1, mode)
+            a1 = round_to(tgt - a2 * rate, q1, "ROUND_FLOOR")
+        c.update(c1=c1, c2=c2, rate=fs(rate), a1=fs(a1), a2=fs(a2),
+                 op=draw(st.sampled_from(["+", "-", "convert", "radd"])))
     elif op == "str_other":
         t = draw(st.sampled_from(QT))
         us = cat.units_of(t)
@@ -341,6 +355,33 @@ def _run(case, ctx, mode):
             return
         _expect(ctx, f"Quantity({text!r}, {v})", res, F(res.amount), case["v"], mode, "str_other", v.qty_cls,
                 grid_only=True)
+    elif k == "conv_money":
+        import datetime
+        from quantity.money import MoneyConverter
+        c1, c2 = cat.unit(["cur", case["c1"]]), cat.unit(["cur", case["c2"]])
+        rate = Fraction(case["rate"])
+        m1, m2 = Money(Fraction(case["a1"]), c1), Money(Fraction(case["a2"]), c2)
+        a1, a2 = F(m1.amount), F(m2.amount)
+        if list(Money.registered_converters()):
+            raise AssertionError("harness: converter stack not empty")
+        conv = MoneyConverter(c2, get_dflt_effective_date=lambda: datetime.date(2020, 1, 1))
+        conv.update(None, [(c1, mknum(["dec", case["rate"]]), 1)])       # 1 c2 = rate c1
+        o = case["op"]
+        with conv:
+            if o == "+":
+                res, ex, what = m1 + m2, a1 + a2 * rate, f"{m1!r} + {m2!r} at {fs(rate)} {c1}/{c2}"
+            elif o == "radd":
+                res, ex, what = quantity_sum([m1, m2]), a1 + a2 * rate, f"sum([{m1!r}, {m2!r}]) at {fs(rate)} {c1}/{c2}"
+            elif o == "-":
+                res, ex, what = m1 - m2, a1 - a2 * rate, f"{m1!r} - {m2!r} at {fs(rate)} {c1}/{c2}"
+            else:
+                res, ex, what = m2.convert(c1), a2 * rate, f"{m2!r}.convert({c1}) at {fs(rate)} {c1}/{c2}"
+        if list(Money.registered_converters()):
+            raise AssertionError("harness: converter left registered")
+        if res.unit is not c1:
+            ctx.viol("conv_money/unit", f"{what} has unit {res.unit}")
+            return
+        _expect(ctx, what, res, ex, ["cur", case["c1"]], mode, f"conv_money{o}", Money)
     elif k == "prod":
         o = case["op"]
         qa = _q(case["a"])
